@@ -6,7 +6,7 @@ Driver for the `commit` correspondence family (C10).
 
 ```
 SCRIPT := <puller> <comp none|zstd> <fmt beve|raw> <open ok|err|cut> <verify ok|rej|panic|panics|panicv|slow> <trailer N>
-          <dest old|none|dir|olds|nones|noparent|symparent> <stop -|N> <dec -|err|B> <fault -|N|sync|dN|pN> wire <resp>…
+          <dest old|none|dir|olds|nones|noparent|symparent|name247|name250> <stop -|N> <dec -|err|B> <fault -|N|sync|dN|pN> wire <resp>…
   puller := file | bevezst | beve | trailer | fileasync | verifiedasync | trailerasync
             suffixes the model does not look at: `@ws` (async puller over a WebSocketClient), `@ps` (entered
             through `pull_stream`), `@s<N>` (presentation style of the scripted peer: query bytes of the
@@ -30,6 +30,8 @@ trace <i> SCRIPT :: <sys>…        -> <i> trace <accept|reject@pos> <match|expe
                                                  failed rename, unlink of the temp file, D = dest touched)
 kill <i> <syscall>:<N> SCRIPT :: <same|L:FNV>   -> <i> kill <ok|BAD>   (destination observed after SIGKILL on
                                                   entry to the N-th such syscall on the two paths)
+wsstorm <i> <cap> <outcap> <chunk> <obs>… SCRIPT :: …  -> as storm (the crate's WebSocketServer, off-reader cap saturated)
+storm <i> <ok|D / err|D>… SCRIPT :: …       -> <i> storm <ok|BAD>  (12+ pulls through one client, one of them cut)
 par <i> <N> <0|1> SCRIPT :: SCRIPT :: …     -> <i> | ret .. dest .. tmp .. | …   (async pulls run concurrently on a
                                      runtime with N blocking threads, through one shared client or one each)
 cancel <i> <ms> SCRIPT :: <same|L:FNV>      -> <i> kill <ok|BAD>   (an async pull dropped by its caller after <ms>)
@@ -118,7 +120,7 @@ def parseScript (ws : List String) : Option (Parsed × List String) :=
     match pullerOf ((pu.splitOn "@").headD ""), compOf co, (allSome (wireWs.map respOf)).map limitWire, decOf dc with
     | some p, some comp, some wire, some dec =>
       if (fm = "beve" ∨ fm = "raw") ∧ (op = "ok" ∨ op = "err" ∨ op = "cut") ∧ (ve = "ok" ∨ ve = "rej" ∨ ve = "panic" ∨ ve = "panics" ∨ ve = "panicv" ∨ ve = "slow")
-          ∧ (de = "old" ∨ de = "none" ∨ de = "dir" ∨ de = "olds" ∨ de = "nones" ∨ de = "noparent" ∨ de = "symparent") ∧ tr.isNat ∧ (st = "-" ∨ st.isNat) ∧ (wf = "-" ∨ wf = "sync" ∨ wf.isNat ∨ ((wf.startsWith "d" ∨ wf.startsWith "p") ∧ (wf.drop 1).toString.isNat)) then
+          ∧ (de = "old" ∨ de = "none" ∨ de = "dir" ∨ de = "olds" ∨ de = "nones" ∨ de = "noparent" ∨ de = "symparent" ∨ de = "name247" ∨ de = "name250") ∧ tr.isNat ∧ (st = "-" ∨ st.isNat) ∧ (wf = "-" ∨ wf = "sync" ∨ wf.isNat ∨ ((wf.startsWith "d" ∨ wf.startsWith "p") ∧ (wf.drop 1).toString.isNat)) then
         let stop := if st = "-" then none else some (natOf st)
         if stop.isSome ∧ !p.usesWriteFile then none else
         some (⟨p, { openOk := op = "ok", comp := comp, beve := fm = "beve", wire := wire, stop := stop,
@@ -128,7 +130,7 @@ def parseScript (ws : List String) : Option (Parsed × List String) :=
                     writeFault := if wf = "-" ∨ wf = "sync" then none
                       else if wf.startsWith "d" ∨ wf.startsWith "p" then (if p.verifies then some (natOf (wf.drop 1).toString) else none)
                       else some (natOf wf),
-                    syncOk := wf ≠ "sync", createOk := de ≠ "noparent" },
+                    syncOk := wf ≠ "sync", createOk := de ≠ "noparent" ∧ de ≠ "name250" },
                 ⟨fun _ => dec, fun _ => []⟩, de = "olds" ∨ de = "nones", ve.startsWith "panic", wf.startsWith "p", op = "cut"⟩, after)
       else none
     | _, _, _, _ => none
@@ -251,6 +253,21 @@ def valueObs (mode : String) (comp : Comp) (need : Nat) (dec : Option Bytes) (op
   | some bs => if base = "consumeerr" then "ret err" else "ret ok " ++ digest bs
   | none => "ret err"
 
+/-- pulls sharing one client when its connection is cut (or its server saturates): which got through is timing;
+each observed outcome (recorded on the line) must be one this pull admits: (ok, its complete content) or
+(err, unchanged) -/
+def stormObs (idx : String) (rest : List String) : String :=
+  let obs := rest.takeWhile fun w => w.startsWith "ok|" ∨ w.startsWith "err|"
+  match parseMany (rest.drop obs.length) with
+  | some qs =>
+    if qs.length ≠ obs.length then idx ++ " bad-op" else
+    let okAll := (qs.zip obs).all fun (q, o) =>
+      let r := runOf q
+      let full := destWord none r.ops
+      o = "err|same" ∨ (r.ret = .ok ∧ o = "ok|" ++ full)
+    joinSp [idx, "storm", if okAll then "ok" else "BAD"]
+  | none => idx ++ " bad-op"
+
 def step (st : Unit) (ws : List String) : Unit × String :=
   match ws with
   | "script" :: idx :: rest =>
@@ -270,6 +287,8 @@ def step (st : Unit) (ws : List String) : Unit × String :=
         (st, joinSp [idx, "trace", acc, if same then "match" else "expected:" ++ ",".intercalate (want.map showSys)])
       | none => (st, idx ++ " bad-op")
     | none => (st, idx ++ " bad-op")
+  | "wsstorm" :: idx :: _cap :: _outcap :: _chunk :: rest => (st, stormObs idx rest)
+  | "storm" :: idx :: rest => (st, stormObs idx rest)
   | "par" :: idx :: _bp :: _shared :: rest =>
     -- concurrent pulls into different destinations: each as if alone (`pulls_do_not_interfere`)
     match parseMany rest with
